@@ -120,6 +120,13 @@ pub fn inject(p: &Program, rng: &mut rand_chacha::ChaCha8Rng) -> Vec<Defect> {
         let mut k = rng.random_range(0..nmain);
         let q = Program { args: p.args.clone(), helpers: p.helpers.clone(), body: replace_var(&p.body, &mut k, "UNBOUND77", &fns) };
         out.push(Defect { kind: "unbound", ident: "UNBOUND77".into(), program: q, where_: "main".into() });
+        // ... and one spelled unlike the generator's own names (a name is unbound whatever it looks like: the special
+        // names @ and @*env* are the only ones the code generator answers without a lookup)
+        let spellings = ["@UNBOUND80", "@u", "@undefined", "_UNBOUND81", "unbound-82!", "$UNB83", "&UNB84", "*UNB85*", "UNB86?", "@*envx*", "@@"];
+        let id = spellings[rng.random_range(0..spellings.len())];
+        let mut k = rng.random_range(0..nmain);
+        let q = Program { args: p.args.clone(), helpers: p.helpers.clone(), body: replace_var(&p.body, &mut k, id, &fns) };
+        out.push(Defect { kind: "unbound", ident: id.into(), program: q, where_: "main".into() });
     }
     for (hi, h) in p.helpers.iter().enumerate() {
         if let Helper::Defun { name, pat, body, inline } = h {
